@@ -254,7 +254,7 @@ Theorem C04_refines_map_resumed :
 Proof. exact StoreSpecResume.refines_map_resumed_x. Qed.
 Print Assumptions C04_refines_map_resumed.
 
-(* (B) From an empty file: a session of Puts and queries, ended by Discard or Finalize ([end_seg c]); the
+(* (B) From an empty file: a session of Puts, PutManys and queries, ended by Discard or Finalize ([end_seg c]); the
    file it leaves reopens, and the reopened store continues exactly as the reference map holding the
    session's blocks, with fresh flags -- for every continuation, lifecycle calls included *)
 Theorem C04_refines_map_across_reopen :
@@ -268,7 +268,7 @@ Theorem C04_refines_map_across_reopen :
     (match f with FSt _ => exists w, k = KStorage w | _ => k = KBlockstore end) ->
     match k with KStorage false => negb (w_v1 o) | _ => false end = false ->
     open_new k o nilroots roots [] = Ok s0 ->
-    Forall (fun op => match op with OpPut _ _ | OpHas _ | OpGet _ | OpGetSize _ | OpKeys | OpRoots => true
+    Forall (fun op => match op with OpPut _ _ | OpPutMany _ | OpHas _ | OpGet _ | OpGetSize _ | OpKeys | OpRoots => true
                                   | _ => false end = true) ops1 ->
     Forall (op_ok o) ops1 -> Forall (op_ok o) ops2 ->
     51 + w_dpad o + w_ipad o + ld_size (blen (enc_header (roots_opt nilroots roots) 1))
@@ -282,3 +282,22 @@ Theorem C04_refines_map_across_reopen :
                     ops2).
 Proof. exact StoreSpecResume.refines_map_across_reopen_x. Qed.
 Print Assumptions C04_refines_map_across_reopen.
+
+(* ---- stutter steps: ReadWrite.DeleteBlock (unsupported: always an error) and HashOnRead (a no-op) -----------
+   [xtrace] (theories/RunMap.v) runs histories of map operations [XOp], stutter steps [XDelete], [XHashOnRead]
+   (and reopen); per step it yields the file after the step and the result.  A history without reopen
+   returns, at the map operations, exactly what the history without the stutter steps returns ([x_sops]),
+   the fixed answers at the stutter steps ([weave]: error for DeleteBlock, nothing for HashOnRead), and
+   ends with the same file: the refinement theorems above apply to [x_sops ops]. *)
+From GoCar Require Import Val RunStore RunMap.
+From GoCarProofs Require StoreSpecStutter.
+Theorem C04_stutter_steps :
+  forall (hdrdec : bytes -> option (list bytes * N)) (f : front) (o : wopts) (nilroots : bool)
+         (roots : list bytes) (ops : list xop) (s : wstate),
+    forallb (fun x => match x with XReopen => false | _ => true end) ops = true ->
+    map snd (xtrace hdrdec f o nilroots roots s ops)
+      = weave ops (outs (trace (impl_step hdrdec f) s (x_sops ops))) /\
+    last (map fst (xtrace hdrdec f o nilroots roots s ops)) (ws_file s)
+      = ws_file (last (map fst (trace (impl_step hdrdec f) s (x_sops ops))) s).
+Proof. exact StoreSpecStutter.xtrace_stutter. Qed.
+Print Assumptions C04_stutter_steps.
